@@ -43,11 +43,12 @@ def rand_history(seed: int) -> list:
     text = " ".join(rng.choice(WORDS) for _ in range(rng.randint(1, 4)))
     par = Paragraph(text) if rng.random() < 0.7 else Header(1, text)
     events = []
-    for step in range(rng.randint(1, 5)):
+    nsteps = rng.randint(1, 5)
+    for step in range(nsteps):
         tokens = ml.project(par)
         slots = [t["s"] for t in tokens if t["k"] == "t"]
         total = sum(len(s) for s in slots)
-        kind = rng.choice(["wrap_offset", "wrap_offset", "wrap_pattern", "mark_occurrence", "mark_position", "strip_tags", "delete"])
+        kind = rng.choice(["wrap_offset", "wrap_offset", "wrap_pattern", "mark_occurrence", "mark_position", "mark_range", "strip_tags", "delete"])
         if kind == "wrap_offset":
             o = {"op": kind, "tag": rng.choice(["span", "a"]), "off": rng.randint(0, total + 1), "len": rng.randint(0, 4)}
         elif kind in ("wrap_pattern", "mark_occurrence"):
@@ -63,6 +64,9 @@ def rand_history(seed: int) -> list:
                 o = {"op": kind, "p": p, "nth": rng.randint(0, 2), "before": rng.random() < 0.5}
         elif kind == "mark_position":
             o = {"op": kind, "pos": rng.randint(0, total + 1)}
+        elif kind == "mark_range":
+            a = rng.randint(0, total + 1)
+            o = {"op": kind, "a": a, "b": rng.randint(a, total + 2), "alone": step == nsteps - 1}
         elif kind == "strip_tags":
             o = {"op": kind, "tag": rng.choice(["span", "a"])}
         else:
@@ -71,7 +75,7 @@ def rand_history(seed: int) -> list:
                 continue
             i = rng.choice(idx)
             o = {"op": "delete", "i": i, "kind": tokens[i - 1].get("tag")}
-        ev, par = event(par, o, tokens, rng.randint(0, 1))
+        ev, par = event(par, o, tokens, rng.randint(0, 5))
         events.append(ev)
         if "exc" in ev and ev["exc"].startswith("crash"):
             break
@@ -113,7 +117,7 @@ def main(tier: str) -> int:
     traces = []
     for i, e in enumerate(edges):
         par = ml.build(e["pre"], "Paragraph" if i % 3 else "Header")
-        ev, _ = event(par, e["op"], e["pre"], i)
+        ev, _ = event(par, dict(e["op"], alone=True), e["pre"], i)
         traces.append([ev])
     n_edges = len(traces)
     nb = 1500 if tier == "quick" else 40000
